@@ -174,6 +174,10 @@ def tlc(ctx, module, cfg_text, name, env=None, workers=1, timeout=900, heap="6g"
         ls = re.findall(r"(?m)^(?:/\\ )?l = (\d+)", out)
         if ls:
             res["last_l"] = int(ls[-1])
+    elif "Error: Deadlock reached." in out:
+        res["violated"] = "Deadlock"
+    elif "Temporal properties were violated" in out:
+        res["violated"] = "Temporal"
     elif "Model checking completed. No error has been found." in out:
         res["ok"] = True
     elif "Postcondition" in out and "is false" in out:
